@@ -554,26 +554,32 @@ def _type_from_runtime(
         return AnyValue(AnySource.error)
 
 
+def _get_typevar_attribute(
+    tv: TypeVarLike, attr: str, default: object, ctx: Context
+) -> Any:
+    try:
+        return getattr(tv, attr, default)
+    except Exception as e:
+        # PEP 695 type parameters evaluate their bound, constraints and
+        # default lazily, which runs arbitrary user code.
+        ctx.show_error(f"Cannot evaluate {attr} of {tv!r}: {e!r}")
+        return default
+
+
 def make_type_var_value(tv: TypeVarLike, ctx: Context) -> TypeVarValue:
-    if (
-        isinstance(tv, (TypeVar, typing_extensions.TypeVar))
-        and getattr(tv, "__bound__", None) is not None
-    ):
-        bound = _type_from_runtime(tv.__bound__, ctx)
-    else:
-        bound = None
-    if isinstance(tv, (TypeVar, typing_extensions.TypeVar)) and getattr(
-        tv, "__constraints__", ()
-    ):
+    bound = default = None
+    constraints = ()
+    if isinstance(tv, (TypeVar, typing_extensions.TypeVar)):
+        runtime_bound = _get_typevar_attribute(tv, "__bound__", None, ctx)
+        if runtime_bound is not None:
+            bound = _type_from_runtime(runtime_bound, ctx)
         constraints = tuple(
-            _type_from_runtime(constraint, ctx) for constraint in tv.__constraints__
+            _type_from_runtime(constraint, ctx)
+            for constraint in _get_typevar_attribute(tv, "__constraints__", (), ctx)
         )
-    else:
-        constraints = ()
-    if hasattr(tv, "__default__") and tv.__default__ is not NoDefault:
-        default = _type_from_runtime(tv.__default__, ctx)
-    else:
-        default = None
+    runtime_default = _get_typevar_attribute(tv, "__default__", NoDefault, ctx)
+    if runtime_default is not NoDefault:
+        default = _type_from_runtime(runtime_default, ctx)
     return TypeVarValue(tv, bound=bound, constraints=constraints, default=default)
 
 
